@@ -112,7 +112,8 @@ def bounds(tier):
                         'scale (2,1,1,1)', 'tau (3,1,1)'],
       leaf_shape_alphabet='(), (1,), (L,), (cols,), (3,), (2,) uint32, nodal, (rows,cols), (1,rows,cols), '
                           '(K,rows,cols), (2,K,rows,cols), (3,rows,cols), (2,rows,cols), (rows,1), (cols,rows), '
-                          '(rows,cols+1), (K,), (K,1,1), (3,1,cols), python float/int, int32 scalar',
+                          '(rows,cols+1), (K,), (K,1,1), (3,1,cols), python float/int, int32 scalar, float32 scalar, jax arrays, '
+                          'the fields of primitive_equations.StateWithTime (incl. sim_time)',
       robert_asselin_r=RA_QUICK if q else 'i/40, i=0..40, + 0.01, 0.03, 0.05',
       amplitudes=core.palette(0, tier) if not q else 'one palette of core.PALETTES (VERIF_SEED)',
   )
@@ -183,12 +184,12 @@ class _Ctx:
     self.nodal = tuple(int(s) for s in grid.nodal_shape)
 
 
-def _xshape(ctx, sshape):
+def _xshape(ctx, sshape, levels=2):
   """shape of a spectral array that the scaling of shape `sshape` rescales: leading scaling axes kept, unit
-  axes (levels) expanded to 2, then (rows, cols)."""
+  axes (levels) expanded to `levels`, then (rows, cols)."""
   if len(sshape) == 1:
     return (ctx.R, ctx.C)
-  return tuple(d if d > 1 else 2 for d in sshape[:-2]) + (ctx.R, ctx.C)
+  return tuple(d if d > 1 else levels for d in sshape[:-2]) + (ctx.R, ctx.C)
 
 
 def _leaves(ctx, sshape, amp):
@@ -210,33 +211,45 @@ def _leaves(ctx, sshape, amp):
   out.append(('sim_time_pyfloat', 0.125 * amp))
   out.append(('count_pyint', 5))
   out.append(('f32_scalar', np.float32(1.5)))
+  # the fields of a real model state with a clock (primitive_equations.StateWithTime)
+  for i, n in enumerate(('vorticity', 'divergence', 'temperature_variation', 'q')):
+    out.append(('pe.' + n, _pattern((K, R, C), amp, 40 + i)))
+  out.append(('pe.log_surface_pressure', _pattern((1, R, C), amp, 47)))
+  out.append(('pe.sim_time', np.float64(12.625 * amp)))
   return out
 
 
 def _tree(leaves):
   """nests the leaves in dict / list / tuple containers (with a None subtree)."""
+  from dinosaur import primitive_equations as pe
+  d = dict(leaves)
+  model_state = pe.StateWithTime(
+      vorticity=d['pe.vorticity'], divergence=d['pe.divergence'], temperature_variation=d['pe.temperature_variation'],
+      log_surface_pressure=d['pe.log_surface_pressure'], sim_time=d['pe.sim_time'], tracers={'q': d['pe.q']})
+  leaves = [(k, v) for k, v in leaves if not k.startswith('pe.')]
   n = len(leaves)
   a, b, c = leaves[:n // 3], leaves[n // 3: 2 * n // 3], leaves[2 * n // 3:]
   return {'state': {k: v for k, v in a}, 'aux': [v for _, v in b],
-          'nest': (tuple(v for _, v in c), {'none': None})}
+          'nest': (tuple(v for _, v in c), {'none': None}), 'model_state': model_state}
 
 
-def _check_factor(ctx, fam, ptag, apply, factor, sshape, asserted_range=True):
+def _check_factor(ctx, fam, ptag, apply, factor, sshape, asserted_range=True, amps=None):
   """ones spectrum + every basis vector through `apply`; `factor`: reference (..., L) long double."""
   rec, L, R, C = ctx.rec, ctx.L, ctx.R, ctx.C
   fb = rf.pad_factor(factor, C)                      # (..., C), extended precision
   fb = np.broadcast_to(fb, sshape) if fb.shape != tuple(sshape) else fb
-  fb64 = fb.astype(np.float64)
-  fbx = fb64 if len(sshape) == 1 else fb64          # broadcasts against x below
+  fbx = fb.astype(np.float64)                        # broadcasts against x below
   xshape = _xshape(ctx, sshape)
   res = np.broadcast_to(ctx.res, xshape)
 
   # -- all-ones spectrum: reads the factor at every (m, l) ------------------------------------------
   key = (ctx.gtag, fam, ptag, 'ones')
   o = _np(apply(np.ones(xshape)))
-  rec.case(key, outcome=o.tobytes(), sample={'grid': ctx.gtag, 'filter': fam, 'params': ptag, 'input': 'ones' + str(xshape),
-                                             'factor_row0': [float(v) for v in o.reshape(-1, R, C)[0, 0, :L]]})
-  if not rec.check(o.shape == tuple(xshape), fam + ':output_shape', key, {'got': list(o.shape), 'want': list(xshape)}):
+  shape_ok = o.shape == tuple(xshape)
+  rec.case(key, outcome=o.tobytes(),
+           sample={'grid': ctx.gtag, 'filter': fam, 'params': ptag, 'input': 'ones' + str(xshape),
+                   'factor_row0': [float(v) for v in o.reshape(-1, R, C)[0, 0, :L]] if shape_ok else None})
+  if not rec.check(shape_ok, fam + ':output_shape', key, {'got': list(o.shape), 'want': list(xshape)}):
     return
   rec.finite(o, site=fam + ':finite_everywhere', key=key)
   want = np.broadcast_to(fbx, xshape)
@@ -258,15 +271,17 @@ def _check_factor(ctx, fam, ptag, apply, factor, sshape, asserted_range=True):
   n = len(ctx.idx)
   E = np.zeros((n, R, C))
   E[np.arange(n), ctx.idx[:, 0], ctx.idx[:, 1]] = 1.0
+  xshape = _xshape(ctx, sshape, levels=1)
   lead = xshape[:-2]
   Eb = np.broadcast_to(E.reshape((n,) + (1,) * len(lead) + (R, C)), (n,) + xshape)
-  amps = np.asarray(ctx.amps)
+  amps = np.asarray(ctx.amps if amps is None else amps)
   x = amps.reshape((-1,) + (1,) * Eb.ndim) * Eb[None]
-  key = (ctx.gtag, fam, ptag, 'basis', list(ctx.amps))
+  key = (ctx.gtag, fam, ptag, 'basis', [float(a) for a in amps])
   o = _np(apply(x))
-  rec.case(key, transitions=n * len(amps), outcome=o.tobytes())
   if rec.check(o.shape == x.shape, fam + ':output_shape', key, {'got': list(o.shape), 'want': list(x.shape)}):
-    rec.zero(o[x == 0], site=fam + ':no_mixing_between_coefficients', key=key)
+    hit = x != 0
+    rec.case(key, transitions=n * len(amps), outcome=o[hit].tobytes())
+    rec.zero(o[~hit], site=fam + ':no_mixing_between_coefficients', key=key)
     want = x * np.broadcast_to(fbx, xshape)
     rec.close(o[..., :L], want[..., :L], scale=float(np.max(np.abs(amps))), site=fam + ':basis_images', key=key)
 
@@ -336,10 +351,10 @@ def _same_tree(rec, a, b, site, key):
   fb_, db = jax.tree_util.tree_flatten(b)
   if not rec.check(da == db, site, key, {'in': str(da)[:200], 'out': str(db)[:200]}):
     return False
-  ok = True
-  for x, y in zip(fa, fb_):
-    ok &= rec.exact(_np(x), _np(y), site=site, key=key)
-  return ok
+  for x, y in zip(fa, fb_):   # one violation per (site, key): stop at the first differing leaf
+    if not rec.exact(_np(x), _np(y), site=site, key=key):
+      return False
+  return True
 
 
 # ---- one grid unit ---------------------------------------------------------------------------------------
@@ -364,6 +379,7 @@ def _work_grid(unit, rec):
   pairs = STEP_PAIRS_QUICK if quick else STEP_PAIRS
   amp0 = ctx.amps[0]
   amp1 = ctx.amps[-1]
+  one_amp = [amp1]
   u_a, u_b, cur, prev = _state_pair(ctx, amp0)
 
   def rk(stepf):
@@ -408,7 +424,7 @@ def _work_grid(unit, rec):
         ptag = _ptag(dict(dt=dt, tau=tau, order=p, cutoff=c))
         factor = rf.exponential_step_factor(L, dt, tau, p, c)
         st = ti.exponential_step_filter(grid, dt, tau, p, c)
-        _check_factor(ctx, 'exponential_step_filter', ptag, rk(st), factor, (C,))
+        _check_factor(ctx, 'exponential_step_filter', ptag, rk(st), factor, (C,), amps=one_amp)
         _check_pytree(ctx, 'exponential_step_filter', ptag, rk(st), factor, (C,), amp0)
         semigroup('exponential_step_filter', ptag, rk(ti.exponential_step_filter(grid, dt / 2, tau, p, c)), rk(st))
         # Runge-Kutta adapter: result is the filtered u_next and does not depend on u
@@ -420,7 +436,7 @@ def _work_grid(unit, rec):
                    'runge_kutta_step_filter:equals_state_filter_of_u_next', key)
 
         lst = ti.exponential_leapfrog_step_filter(grid, dt, tau, p, c)
-        _check_factor(ctx, 'exponential_leapfrog_step_filter', ptag, lf(lst), factor, (C,))
+        _check_factor(ctx, 'exponential_leapfrog_step_filter', ptag, lf(lst), factor, (C,), amps=one_amp)
         _check_pytree(ctx, 'exponential_leapfrog_step_filter', ptag, lf(lst), factor, (C,), amp1)
         semigroup('exponential_leapfrog_step_filter', ptag,
                   lf(ti.exponential_leapfrog_step_filter(grid, dt / 2, tau, p, c)), lf(lst))
@@ -439,7 +455,7 @@ def _work_grid(unit, rec):
       ptag = _ptag(dict(dt=dt, tau=tau, order=p))
       factor = rf.diffusion_step_factor(L, dt, tau, p)
       st = ti.horizontal_diffusion_step_filter(grid, dt, tau, p)
-      _check_factor(ctx, 'horizontal_diffusion_step_filter', ptag, rk(st), factor, (C,))
+      _check_factor(ctx, 'horizontal_diffusion_step_filter', ptag, rk(st), factor, (C,), amps=one_amp)
       _check_pytree(ctx, 'horizontal_diffusion_step_filter', ptag, rk(st), factor, (C,), amp0)
       semigroup('horizontal_diffusion_step_filter', ptag,
                 rk(ti.horizontal_diffusion_step_filter(grid, dt / 2, tau, p)), rk(st))
@@ -456,8 +472,8 @@ def _work_grid(unit, rec):
     factor = rf.diffusion_factor(L, radius, s, p)
     lst = ti.leapfrog_step_filter(base)
     rst = ti.runge_kutta_step_filter(base)
-    _check_factor(ctx, 'leapfrog_step_filter(diffusion)', ptag, lf(lst), factor, (C,))
-    _check_factor(ctx, 'runge_kutta_step_filter(diffusion)', ptag, rk(rst), factor, (C,))
+    _check_factor(ctx, 'leapfrog_step_filter(diffusion)', ptag, lf(lst), factor, (C,), amps=one_amp)
+    _check_factor(ctx, 'runge_kutta_step_filter(diffusion)', ptag, rk(rst), factor, (C,), amps=one_amp)
     key = (ctx.gtag, 'leapfrog_step_filter(diffusion)', ptag, 'leapfrog_slot')
     o1 = lst((prev, cur), (cur, u_a))
     rec.case(key, transitions=1, outcome=_np(o1[1]['x']).tobytes())
@@ -480,7 +496,9 @@ def _work_grid(unit, rec):
     m = np.broadcast_to(ctx.res, xs[1:])
     for i, f in enumerate(scalar_fns):
       oi = _np(f(x[i]))
-      rec.close(o[i][m], oi[m], scale=abs(amp0) * 1.2, site=fam + ':array_strength_equals_per_slice_scalar', key=key)
+      if not rec.close(o[i][m], oi[m], scale=abs(amp0) * 1.2, site=fam + ':array_strength_equals_per_slice_scalar',
+                       key=key):
+        break
 
   A3 = np.array(EXP_ATT).reshape(3, 1, 1)
   P3 = np.array(EXP_ORDER).reshape(3, 1, 1)
@@ -492,7 +510,7 @@ def _work_grid(unit, rec):
       fn = filtering.exponential_filter(grid, a, p, c)
       factor = rf.exponential_factor(L, a, p, c)
       ss = rf.scaling_shape(C, a, p)
-      _check_factor(ctx, fam, ptag, fn, factor, ss)
+      _check_factor(ctx, fam, ptag, fn, factor, ss, amps=one_amp)
       _check_pytree(ctx, fam, ptag, fn, factor, ss, amp0)
       n = lead[0]
       av = np.broadcast_to(np.asarray(a, dtype=float).reshape(-1), (n,)) if np.ndim(a) else [a] * n
@@ -508,7 +526,7 @@ def _work_grid(unit, rec):
       fn = filtering.horizontal_diffusion_filter(grid, s, p)
       factor = rf.diffusion_factor(L, radius, s, p)
       ss = rf.scaling_shape(C, s)
-      _check_factor(ctx, fam, ptag, fn, factor, ss)
+      _check_factor(ctx, fam, ptag, fn, factor, ss, amps=one_amp)
       _check_pytree(ctx, fam, ptag, fn, factor, ss, amp1)
       slices(fam, ptag, fn, [filtering.horizontal_diffusion_filter(grid, float(v), p) for v in s.reshape(-1)], lead)
 
@@ -520,13 +538,13 @@ def _work_grid(unit, rec):
     st = ti.exponential_step_filter(grid, dt, T3, p, 0.3)
     factor = rf.exponential_step_factor(L, dt, T3, p, 0.3)
     ss = rf.scaling_shape(C, T3)
-    _check_factor(ctx, fam, ptag, rk(st), factor, ss)
+    _check_factor(ctx, fam, ptag, rk(st), factor, ss, amps=one_amp)
     slices(fam, ptag, rk(st), [rk(ti.exponential_step_filter(grid, dt, float(t), p, 0.3)) for t in T3.reshape(-1)], (3,))
     fam = 'horizontal_diffusion_step_filter[array]'
     ptag = _ptag(dict(dt=dt, tau=T3, order=p))
     st = ti.horizontal_diffusion_step_filter(grid, dt, T3, p)
     factor = rf.diffusion_step_factor(L, dt, T3, p)
-    _check_factor(ctx, fam, ptag, rk(st), factor, ss)
+    _check_factor(ctx, fam, ptag, rk(st), factor, ss, amps=one_amp)
     slices(fam, ptag, rk(st), [rk(ti.horizontal_diffusion_step_filter(grid, dt, float(t), p)) for t in T3.reshape(-1)], (3,))
 
 
@@ -569,7 +587,8 @@ def _work_ra(unit, rec):
         _same_tree(rec, out[1], trip[2], 'robert_asselin:newest_level_bit_identical', key)
         want = jax.tree_util.tree_map(lambda p, c, f: rf.robert_asselin(p, c, f, r).astype(np.float64), *trip)
         for g, w in zip(fl, jax.tree_util.tree_leaves(want)):
-          rec.close(_np(g), w, scale=abs(amp) * 1.2 + 1e-300, site='robert_asselin:three_point_closed_form', key=key)
+          if not rec.close(_np(g), w, scale=abs(amp) * 1.2, site='robert_asselin:three_point_closed_form', key=key):
+            break
       # linear in time: previous = a - d, current = a, future = a + d
       for salt, (a_amp, d_amp) in enumerate([(amp, amps[0]), (amp, -0.375), (0.0, amp), (amp, 0.0)]):
         a = mk(5 + salt, a_amp) if a_amp else mk(0, 1.0, zero=True)
@@ -585,7 +604,8 @@ def _work_ra(unit, rec):
         _same_tree(rec, out[1], f, 'robert_asselin:newest_level_bit_identical', key)
         scale = (abs(a_amp) + abs(d_amp)) * 1.2 * 3
         for g, w in zip(fl, jax.tree_util.tree_leaves(a)):
-          rec.close(_np(g), _np(w), scale=scale, site='robert_asselin:linear_in_time_unchanged', key=key)
+          if not rec.close(_np(g), _np(w), scale=scale, site='robert_asselin:linear_in_time_unchanged', key=key):
+            break
 
 
 # ---- degenerate grids (counted, not asserted) -------------------------------------------------------------
